@@ -170,6 +170,9 @@ PROPS = {
                 "encoding/csv + getAmbArr + Atoi (ok / error / panic)",
     },
     "C12": {
+        "extra_imports": ["Gofasta.Lemmas.AggVariants"],
+        "extra_theorems": ["Gofasta.Lemmas.AggVariants.variants_aggregate_model_deterministic", "Gofasta.Lemmas.AggVariants.variants_aggregate_any_order",
+                           "Gofasta.Lemmas.AggVariants.aggLt_not_swo", "Gofasta.Lemmas.AggVariants.tie_hypothesis_needed"],
         "streams": {"C12": (64, 400)},
         "thorough_seeds": 3,
         "cli": True,
